@@ -459,6 +459,13 @@ Definition posterior_chain_gen (cs : seq scol) : nat -> nat -> nat -> F :=
     let M := nth (fun _ _ => f0) Ms c in
     fdiv (fsum [seq fsum [seq M i a | a <- iota 0 na & genof i a ind == g] | i <- iota 0 tn])
          (fsum [seq fsum [seq M i a | a <- iota 0 na] | i <- iota 0 tn]).
+(* the same for one column only (the correspondence check evaluates it at the column of highest coverage when
+   2^coverage is large) *)
+Definition posterior_chain_col (cs : seq scol) (c : nat) : nat -> nat -> F :=
+  let M := chain_M cs c in
+  fun ind g =>
+    fdiv (fsum [seq fsum [seq M i a | a <- iota 0 na & genof i a ind == g] | i <- iota 0 tn])
+         (fsum [seq fsum [seq M i a | a <- iota 0 na] | i <- iota 0 tn]).
 End Spec.
 
 (* the hidden Markov model of an instance: local factors without memoisation *)
